@@ -10,34 +10,49 @@ from .. import strategies as S
 
 PROPERTY = "C02"
 LEVEL = "exploration"
-RULE = ("Generated configurations (N 0..200, 80% <= 12; masses incl. exact zeros and ratios to 1e-12; G; softening 0 or "
-        ">0; N_active in {-1,0..N}; testparticle_type 0/1; gravity_ignore_terms 0/1/2; ghost boxes 0..2 per axis with "
-        "open/periodic/shear boundaries; root layouts 1..3 per axis; opening_angle2 in {0,0.01,0.1,0.25,0.5,1}; routines "
-        "BASIC, COMPENSATED, TREE, JACOBI, MERCURIUS mode 0/1, TRACE interaction/Kepler).  The exported "
-        "reb_simulation_update_acceleration is called on a simulation built from the case and ax,ay,az are compared with an "
-        "O(N^2) reference written from the documentation (numpy longdouble; cross-checked against mpmath for N<=8), tolerance "
-        "(n_terms+16)*eps*sum|terms| (16*eps*sum|terms| for COMPENSATED).  Non-trivial = N>=3 and at least one of: test "
-        "particles present, ignore_terms != 0, ghost boxes, a zero-mass body, a tree with >= 2 levels, an encounter "
-        "mask / changeover weight with both 0 and 1 entries.  Distinct by case hash.")
+RULE = ("Generated configurations (N 0..200, 80% <= 12; masses incl. exact zeros and ratios to 1e-12; 6 values of G; softening 0 "
+        "or >0; N_active in {-1,0..N}; testparticle_type 0/1; gravity_ignore_terms 0/1/2; ghost boxes 0..2 per axis with "
+        "open/periodic/shear boundaries (shear: generated t, OMEGA); root layouts 1..3 per axis; opening_angle2 in "
+        "{0,0.0025,0.01,0.1,0.23,0.25,0.5,0.97,1}; routines BASIC, COMPENSATED, TREE, JACOBI, MERCURIUS mode 0/1 (4 built-in "
+        "changeover functions + a Python one, generated dcrit, full and partial encounter maps), TRACE interaction/Kepler "
+        "(generated K masks and encounter maps)).  The exported reb_simulation_update_acceleration is called on a simulation "
+        "built from the case and ax,ay,az are compared with an O(N^2) reference written from the documentation (numpy longdouble; "
+        "cross-checked against an independent mpmath loop for N<=8), tolerance (n_terms+16)*eps*sum|terms| (16*eps*sum|terms| "
+        "for COMPENSATED).  TREE theta>0: equality with the Barnes-Hut sum predicted from a geometric octree + the multipole "
+        "bound.  JACOBI additionally: one WHFast step with gravity=jacobi equals the step through gravity=basic + interaction-step "
+        "Jacobi term.  Non-trivial = N>=3 and at least one of: test particles present, ignore_terms != 0, ghost boxes, a zero-mass "
+        "body, a tree with >= 2 levels and an accepted cell, an encounter mask / changeover weight with both 0 and 1 entries.  "
+        "Distinct by case hash.")
 ASSUMPTIONS = [
     "specification of the pairwise sum: docs/simulationvariables.md (softening, N_active, testparticle_type, "
     "gravity_ignore_terms) + the property statement; ghost images = integer multiples of the box lengths "
     "(for shear: plus the y displacement returned by reb_boundary_get_ghostbox, checked to be congruent to "
     "-1.5*i*OMEGA*Lx*t modulo Ly and bounded by 1.5 Ly); a particle's own images are not part of the sum",
     "numpy.longdouble is the x87 80-bit format (eps 1.08e-19), asserted at start-up",
-    "tree geometry: cells halve the root box, a particle belongs to the lower half along an axis iff x < centre",
-    "MERCURIUS/TRACE internal inputs (dcrit, encounter_map, current_Ks, mode) written through the ctypes mirror",
+    "tree geometry: cells halve the root box, a particle belongs to the lower half along an axis iff x < centre; cases where an "
+    "opening decision is within rounding of the threshold are not asserted (counted as skipped)",
+    "MERCURIUS/TRACE internal inputs (dcrit, encounter_map, current_Ks, mode) are written through the ctypes mirror after "
+    "reb_integrator_{mercurius,trace}_part1 allocated them; TRACE is given heliocentric input (particle 0 at the origin)",
+    "JACOBI main domain: all particles active, no softening (the documented partition/softening semantics of JACOBI and TREE "
+    "are asserted by the enumerated sub documented_partition, currently under open findings)",
+    "type-0 test particles with non-zero mass are generated for BASIC/COMPENSATED only (the library warns about them)",
+    "the Python attribute for C gravity_ignore_terms is `gravity_ignore` in 4.4.8; the harness sets whichever field exists",
     "OPENMP / MPI / QUADRUPOLE builds are not compiled and not covered",
 ]
 CLASSES = ["direct/basic", "direct/compensated", "direct/testparticles_type0", "direct/testparticles_type1",
            "direct/ignore1", "direct/ignore2", "direct/ghost", "direct/shear", "direct/zero_mass", "direct/softened",
-           "direct/N>50", "direct/N_active=0"]
+           "direct/N>50", "direct/N_active=0", "direct/momentum", "tree_theta0/ghost", "tree_bound/prediction_checked",
+           "tree_bound/bound_checked", "tree_bound/apriori_bound_checked", "mercurius_split/two_part_identity",
+           "mercurius_split/partial_encounter_map", "mercurius_split/pairs_in_changeover", "trace_split/two_part_identity",
+           "trace_split/K_mixed", "jacobi_whfast_step/massless_testparticles", "documented_partition/tree",
+           "documented_partition/jacobi"]
 
 EPS = 2.0 ** -52
 
 KEY_COMP_GHOST = "C02-compensated-ignores-ghostboxes"
 KEY_TREE_PART = "C02-tree-ignores-active-partition"
-KEY_JAC_PART = "C02-jacobi-ignores-partition-softening"
+KEY_JAC_PART = "C02-jacobi-ignores-active-partition"
+KEY_JAC_SOFT = "C02-jacobi-ignores-softening"
 
 
 # ---------------------------------------------------------------------------------------
@@ -1019,7 +1034,7 @@ def run_partition(case, ctx):
         key = KEY_TREE_PART
     else:
         deviates = massive_tp or c["soft"] > 0
-        key = KEY_JAC_PART
+        key = KEY_JAC_PART if massive_tp else KEY_JAC_SOFT
     if massive_tp and c["tp_type"] == 0:
         ctx.cls("massive_type0_testparticles(library warns: unexpected behaviour)")
         ctx.skip("type-0 test particles with mass: the library itself warns about this configuration")
